@@ -474,6 +474,16 @@ class Env:
 def bits_of(e, env, width=64):
     """Per-bit provenance of integer expression e, LSB first: list of
     0 | 1 | (atom_key, bit_index) | None (unknown mix)."""
+    out = _bits_of(e, env, width)
+    if e.op != "const":
+        lo, hi = env.interval(e)
+        if lo >= 0 and hi != INF:
+            n = int(hi).bit_length()
+            out = [b if i < n else 0 for i, b in enumerate(out)]
+    return out
+
+
+def _bits_of(e, env, width=64):
     op = e.op
     if op == "const":
         v = e.args[0]
